@@ -968,6 +968,13 @@ def check_c14(tier: str) -> int:
             mark = len(rig.console.requests)
             rig.console.silent_from = 99
             auto_answer = rng.random() < 0.5
+            # the console bug the poll works around: for the rest of this history the console publishes no group status
+            # on its own AND leaves group status requests unanswered (a poll re-arms the deadline by itself; a refresh
+            # after a reconnection then brings no group status, so the model is not told of one)
+            stuck = rng.random() < 0.3
+            if stuck:
+                rig.console.mute = set(rig.console.mute) | {"zone_status"}
+                dist["poll_console_stuck"] += 1
             hist = []
             refresh_at = set()
 
@@ -985,7 +992,7 @@ def check_c14(tier: str) -> int:
                         seen_cids.add(q[1])
                         r = int(round(q[0] * 1024))
                         refresh_at.add(r - t0)
-                        ops.extend([3, r - cursor, 0, 2])
+                        ops.extend([3, r - cursor, 0] + ([] if stuck else [2]))
                         cursor = r
                         dist["poll_refreshes_seen"] += 1
                 if begin + step - cursor > 0 or cursor == begin:
@@ -1010,6 +1017,8 @@ def check_c14(tier: str) -> int:
 
             for _ in range(rng.choice([3, 6, 10])):
                 k = rng.randrange(11)
+                if stuck and k < 3:
+                    k = 10 if rng.random() < 0.5 else 5
                 if k < 3:
                     # unsolicited group status (never exactly on the deadline)
                     rig.console.push(inst.zone_status_message())
@@ -1059,7 +1068,7 @@ def check_c14(tier: str) -> int:
             dist["poll_requests"] += len(got)
             if got != want:
                 ck.violation("group status poll instants differ from the model",
-                             {"kind": "poll", "history": hist, "requests_at_ticks": got, "model": want, "trigger": {"class": "poll"},
+                             {"kind": "poll", "history": hist, "console_answers_group_status_requests": not stuck, "requests_at_ticks": got, "model": want, "trigger": {"class": "poll"},
                               "failure": "a group status request is due exactly 300 s after the last group status / poll while connected"})
         finally:
             rig.close()
